@@ -59,7 +59,7 @@ def _labels(ch, rs, X, n):
         vals = numpy.array(["ant", "bee", "cat", "dog"])
         y = vals[lab]
     else:
-        vals = numpy.array([0.5, 1.5, 2.5, 4.25])
+        vals = numpy.array([1.0, 2.0, 5.0, 7.0])  # float-valued integers (non-integral floats are regression targets for scikit-learn)
         y = vals[lab]
     return y, ltype, len(present)
 
